@@ -11,10 +11,12 @@ import (
 	"github.com/go-git/go-git/v5/plumbing/format/gitignore"
 	"github.com/gobwas/glob"
 	scalibr "github.com/google/osv-scalibr"
+	"github.com/google/osv-scalibr/detector"
 	"github.com/google/osv-scalibr/extractor"
 	"github.com/google/osv-scalibr/extractor/filesystem"
 	scalibrfs "github.com/google/osv-scalibr/fs"
 	"github.com/google/osv-scalibr/inventory"
+	"github.com/google/osv-scalibr/packageindex"
 	"github.com/google/osv-scalibr/plugin"
 	"github.com/google/osv-scalibr/purl"
 	"github.com/google/osv-scalibr/stats"
@@ -36,6 +38,25 @@ type XEntry struct {
 	Pkgs  []Pkg  `json:"pkgs,omitempty"`
 	Err   bool   `json:"err,omitempty"`
 	Panic bool   `json:"panic,omitempty"`
+}
+
+// StatReq: the extractor's FileRequired additionally consults api.Stat(): required only if Stat succeeds and
+// the size is at least Min.
+type StatReq struct {
+	Ext string `json:"ext"`
+	Min int64  `json:"min"`
+}
+
+type Finding struct {
+	Pub   string `json:"pub"`
+	Ref   string `json:"ref"`
+	Extra string `json:"extra"`
+}
+
+// Det is a fake detector: its name and the findings its Scan returns.
+type Det struct {
+	Name     string    `json:"name"`
+	Findings []Finding `json:"findings"`
 }
 
 type Cancel struct {
@@ -60,6 +81,7 @@ type ScanObs struct {
 	Failed bool        `json:"failed,omitempty"`
 	Inv    []TPkg      `json:"inv,omitempty"`
 	Status []StatusObs `json:"status,omitempty"`
+	Findings []Finding `json:"findings,omitempty"`
 }
 
 type Obs struct {
@@ -80,6 +102,8 @@ type Case struct {
 	Roots     []*Node     `json:"roots"`
 	Exts      []string    `json:"exts"`
 	Req       [][2]string `json:"req"` // (ext, path) pairs FileRequired answers true for
+	StatReq   []StatReq   `json:"stat_req,omitempty"`
+	Dets      []Det       `json:"detectors,omitempty"`
 	Extract   []XEntry    `json:"extract"`
 	PatFiles  [][]string  `json:"pat_files,omitempty"`
 	SkipList  []string    `json:"skip_list,omitempty"`
@@ -125,6 +149,7 @@ type fakeExt struct {
 	rec  *recorder
 	req  map[string]bool
 	xt   map[string]*XEntry
+	min  *int64 // FileRequired also wants api.Stat().Size() >= *min
 }
 
 func (e *fakeExt) Name() string                                { return e.name }
@@ -134,7 +159,17 @@ func (e *fakeExt) ToPURL(*extractor.Package) *purl.PackageURL  { return nil }
 func (e *fakeExt) Ecosystem(*extractor.Package) string         { return "" }
 func (e *fakeExt) FileRequired(api filesystem.FileAPI) bool {
 	e.rec.events = append(e.rec.events, [3]string{"R", e.name, api.Path()})
-	return e.req[api.Path()]
+	if !e.req[api.Path()] {
+		return false
+	}
+	if e.min != nil {
+		info, err := api.Stat()
+		if err != nil {
+			return false
+		}
+		return info.Size() >= *e.min
+	}
+	return true
 }
 
 var errExtract = errors.New("xerr")
@@ -195,6 +230,13 @@ func (c *Case) setup() *setup {
 				if _, dup := fe.xt[c.Extract[i].Path]; !dup {
 					fe.xt[c.Extract[i].Path] = &c.Extract[i]
 				}
+			}
+		}
+		for i := range c.StatReq {
+			if c.StatReq[i].Ext == name {
+				m := c.StatReq[i].Min
+				fe.min = &m
+				break
 			}
 		}
 		s.exts = append(s.exts, fe)
@@ -316,7 +358,7 @@ func runCase(c *Case, withScan bool) {
 			}
 		}()
 		res := scalibr.New().Scan(s2.ctx, &scalibr.ScanConfig{
-			FilesystemExtractors: s2.exts, Capabilities: &plugin.Capabilities{}, ScanRoots: s2.roots,
+			FilesystemExtractors: s2.exts, Detectors: c.detectors(), Capabilities: &plugin.Capabilities{}, ScanRoots: s2.roots,
 			PathsToExtract: c.Paths, IgnoreSubDirs: c.IgnoreSub, DirsToSkip: c.SkipList, SkipDirRegex: s2.re,
 			SkipDirGlob: s2.gl, MaxFileSize: c.MaxSize, UseGitignore: c.Gitignore, Stats: collector{rec: s2.rec},
 			ReadSymlinks: c.Symlinks, MaxInodes: c.MaxInodes, ErrorOnFSErrors: c.Fatal,
@@ -324,12 +366,15 @@ func runCase(c *Case, withScan bool) {
 		c.Obs.Scan.Failed = res.Status.Status != plugin.ScanStatusSucceeded
 		c.Obs.Scan.Inv = invObs(res.Inventory.Packages)
 		c.Obs.Scan.Status = statusObs(res.PluginStatus)
+		for _, f := range res.Inventory.Findings {
+			c.Obs.Scan.Findings = append(c.Obs.Scan.Findings, Finding{Pub: f.Adv.ID.Publisher, Ref: f.Adv.ID.Reference, Extra: f.Extra})
+		}
 	}()
 }
 
 // ---------------------------------------------------------------- Coq printing
 
-var namePool = []string{"a", "b", "c", "d.txt", "e f", "-g", ".h", "pkg.json", "x.lock", "lib", "src", "node_modules", "z"}
+var namePool = []string{"a", "b", "c", "d.txt", "e f", "-g", ".h", "pkg.json", "x.lock", "lib", "src", "node_modules", "z", "ab", "lib64", "srcs"}
 var nameIDs = map[string]uint64{".": 0, ".gitignore": 1}
 
 func init() {
@@ -464,7 +509,7 @@ func coqObs(o *Obs) string {
 		if o.Scan.Panic {
 			scan = "SPanic"
 		} else {
-			scan = fmt.Sprintf("(SDone %s %s %s)", cf.Bool(o.Scan.Failed), coqTPkgs(o.Scan.Inv), coqStatuses(o.Scan.Status))
+			scan = fmt.Sprintf("(SDone %s %s %s %s)", cf.Bool(o.Scan.Failed), coqTPkgs(o.Scan.Inv), coqStatuses(o.Scan.Status), coqFindings(o.Scan.Findings))
 		}
 	}
 	return fmt.Sprintf("{| o_class := %s; o_events := %s; o_inv := %s; o_status := %s; o_scan := %s |}",
@@ -571,6 +616,36 @@ func dirMatchTable(c *Case, pred func(string) bool) string {
 	return coqPaths(ps)
 }
 
+func coqFindings(l []Finding) string {
+	items := make([]string, len(l))
+	for i, f := range l {
+		items[i] = fmt.Sprintf("{| f_pub := %s; f_ref := %s; f_extra := %s |}", cf.Str(f.Pub), cf.Str(f.Ref), cf.Str(f.Extra))
+	}
+	return cf.List(items)
+}
+
+type fakeDet struct{ d Det }
+
+func (d fakeDet) Name() string                       { return d.d.Name }
+func (d fakeDet) Version() int                       { return 1 }
+func (d fakeDet) Requirements() *plugin.Capabilities { return &plugin.Capabilities{} }
+func (d fakeDet) RequiredExtractors() []string       { return nil }
+func (d fakeDet) Scan(context.Context, *scalibrfs.ScanRoot, *packageindex.PackageIndex) ([]*detector.Finding, error) {
+	var out []*detector.Finding
+	for _, f := range d.d.Findings {
+		out = append(out, &detector.Finding{Adv: &detector.Advisory{ID: &detector.AdvisoryID{Publisher: f.Pub, Reference: f.Ref}}, Extra: f.Extra})
+	}
+	return out, nil
+}
+
+func (c *Case) detectors() []detector.Detector {
+	var out []detector.Detector
+	for _, d := range c.Dets {
+		out = append(out, fakeDet{d})
+	}
+	return out
+}
+
 func coqCase(c *Case) string {
 	roots := make([]string, len(c.Roots))
 	for i, r := range c.Roots {
@@ -612,9 +687,17 @@ func coqCase(c *Case) string {
 	case "extract":
 		cancel = fmt.Sprintf("(CancelAtExtract %d%%nat)", c.Cancel.N)
 	}
-	return fmt.Sprintf("{| w_roots := %s; w_exts := %s; w_req := %s; w_xt := %s; w_pat := %s; w_skip := %s; w_re := %s; w_glob := %s; "+
-		"w_gi := %s; w_isd := %s; w_paths := %s; w_sym := %s; w_maxi := %s; w_maxs := %s; w_fatal := %s; w_cancel := %s; w_group := %d;\n     w_obs := %s |}",
-		cf.List(roots), cf.List(exts), cf.List(req), cf.List(xt), cf.List(patTable(c)), coqPaths(c.SkipList), re, gl,
+	sr := make([]string, len(c.StatReq))
+	for i, x := range c.StatReq {
+		sr[i] = fmt.Sprintf("(%s, %s)", cf.Str(x.Ext), cf.Z(x.Min))
+	}
+	dets := make([]string, len(c.Dets))
+	for i, d := range c.Dets {
+		dets[i] = fmt.Sprintf("(%s, %s)", cf.Str(d.Name), coqFindings(d.Findings))
+	}
+	return fmt.Sprintf("{| w_roots := %s; w_exts := %s; w_req := %s; w_statreq := %s; w_xt := %s; w_pat := %s; w_skip := %s; w_re := %s; w_glob := %s; "+
+		"w_gi := %s; w_isd := %s; w_paths := %s; w_sym := %s; w_maxi := %s; w_maxs := %s; w_fatal := %s; w_cancel := %s; w_dets := %s; w_group := %d;\n     w_obs := %s |}",
+		cf.List(roots), cf.List(exts), cf.List(req), cf.List(sr), cf.List(xt), cf.List(patTable(c)), coqPaths(c.SkipList), re, gl,
 		cf.Bool(c.Gitignore), cf.Bool(c.IgnoreSub), coqPaths(c.Paths), cf.Bool(c.Symlinks), cf.Z(int64(c.MaxInodes)),
-		cf.Z(int64(c.MaxSize)), cf.Bool(c.Fatal), cancel, c.Group, coqObs(&c.Obs))
+		cf.Z(int64(c.MaxSize)), cf.Bool(c.Fatal), cancel, cf.List(dets), c.Group, coqObs(&c.Obs))
 }
